@@ -232,8 +232,10 @@ class Array:
             if not isinstance(value, Sized):
                 value = list(value)
             if len(value) == items_in_slice:
-                for s, v in zip(range(start, stop, step), value):
-                    self.data.overwrite(self._create_element(v), s * self._dtype.bitlength)
+                # Create all the elements first, so that nothing is changed if one of the values is unsuitable.
+                elements = [self._create_element(v) for v in value]
+                for s, element in zip(range(start, stop, step), elements):
+                    self.data.overwrite(element, s * self._dtype.bitlength)
             else:
                 raise ValueError(f"Can't assign {len(value)} values to an extended slice of length {items_in_slice}.")
         else:
@@ -307,8 +309,11 @@ class Array:
         else:
             if isinstance(iterable, str):
                 raise TypeError("Can't extend an Array with a str.")
+            # Create all the new data first, so that nothing is changed if one of the items is unsuitable.
+            new_data = BitArray()
             for item in iterable:
-                self.data += self._create_element(item)
+                new_data += self._create_element(item)
+            self.data += new_data
 
     def insert(self, i: int, x: ElementType) -> None:
         """Insert a new element into the Array at position i.
